@@ -8,7 +8,10 @@ import os
 
 from common import Coverage, Driver, coq_eval, rng, violation
 
-VKINDS = ["ok", "wrongid", "badtag", "badsig", "auth", "invalid", "garbage", "peerclose", "peerreset", "http4xx"]
+VKINDS = ["ok", "wrongid", "badtag", "badsig", "auth", "invalid", "garbage", "peerclose", "peerreset", "http4xx",
+          "okfin", "okrst"]
+OKLIKE = ("ok", "okfin", "okrst")
+OKLOSS = ("okfin", "okrst")   # pair-verify ok, then the accessory drops the link delta ticks into connection_made(True)
 TEN_S = 40960
 SIXTY_S = 245760
 THIRTY_S = 122880          # request timeout of InsecureHomeKitProtocol._send_lines
@@ -73,7 +76,8 @@ def coq_scenario(sc):
     dials = "[" + "; ".join("DRefused" if d[0] == "refused" else "DHang" if d[0] == "hang" else f"DConnect {d[1]}"
                             for d in sc.get("dials", [])) + "]"
     vk = dict(ok="VOk", wrongid="VWrongId", badtag="VBadTag", badsig="VBadSig", auth="VAuth", invalid="VInvalid",
-              garbage="VGarbage", peerclose="VPeerClose", peerreset="VPeerReset", http4xx="VHttp4xx")
+              garbage="VGarbage", peerclose="VPeerClose", peerreset="VPeerReset", http4xx="VHttp4xx", okfin="VOkFin",
+              okrst="VOkRst")
     ver = "[" + "; ".join(f"({vk[v[0]]}, {v[1] if len(v) > 1 else 0}%N, {v[3] if len(v) > 3 else 0}%N)"
                           for v in sc.get("verifies", [])) + "]"
     cs = []
@@ -123,11 +127,11 @@ def scripts_for(outcomes, nhosts):
             verifs.append(["ok", 0])
         else:
             dials.append(["connect", 0])
-            verifs.append([o, 0])
+            verifs.append([o, 1000 if o in OKLOSS else 0])
     return dials, verifs
 
 
-ATTEMPT_OUTCOMES = ["refused", "timeout", "peerclose", "http4xx", "wrongid", "badsig", "auth", "garbage", "ok"]
+ATTEMPT_OUTCOMES = ["refused", "timeout", "peerclose", "http4xx", "wrongid", "badsig", "auth", "garbage", "ok", "okfin", "okrst"]
 
 CONTROL_TEMPLATES = [
     ("ensure-only", lambda: [[1, "ensure", 1]]),
@@ -147,8 +151,9 @@ def gen_exhaustive(depth, hosts_set):
         for d in range(0, depth + 1):
             for seq in itertools.product(ATTEMPT_OUTCOMES, repeat=d):
                 dials, verifs = scripts_for(seq, nh)
+                subs = any(o in OKLOSS for o in seq)      # the scripted loss needs the re-subscribe window
                 for name, mk in CONTROL_TEMPLATES:
-                    out.append(dict(hosts=nh, dials=dials, verifies=verifs, controls=mk(), end=300001, subs=False,
+                    out.append(dict(hosts=nh, dials=dials, verifies=verifs, controls=mk(), end=300001, subs=subs,
                                     tag=f"exh/{name}"))
                 if "wrongid" in seq:     # the exclusion bookkeeping compares normalised addresses
                     out.append(dict(hosts=nh, dials=dials, verifies=verifs, controls=CONTROL_TEMPLATES[0][1](), end=300001,
@@ -248,7 +253,8 @@ def gen_inflight(full=True):
                 offs.append(req + win + 1000)          # the verify on the other address is in flight
             after = req + win + 2 * SIXTY_S
             reuse = [[after + 1, "ensure", 8], [after + 20001, "drop", 2], [after + 20003, "drop", 3], [after + 90001, "ensure", 9]]
-            variants = [(False, 0)] + ([(True, 0)] if kind == "ok" or full else []) + ([(False, 2500)] if full else [])
+            variants = ([(False, 0)] + ([(True, 0)] if kind in ("ok",) + OKLOSS or full else [])
+                        + ([(False, 2500)] if full else []))
             for subs, lost in variants:
                 first = [kind, 700, lost, vd]
                 second = ["ok", 0, 0, 2000] if kind != "ok" else ["badsig", 0, 0, 2000]
@@ -272,6 +278,27 @@ def gen_inflight(full=True):
                             # choice; the snapshot is taken after both): judged by the property oracles only
                             sc["oracle_only"] = True
                         out.append(sc)
+    return out
+
+
+def gen_scripted_loss():
+    """The accessory itself drops the link inside the connector's connection_made(True) window (okfin / okrst), so the
+    lost-during-setup path runs with NO control event after the first ensure: every independent oracle rule applies."""
+    out = []
+    for prefix in ([], ["refused"], ["badsig"]):
+        for seq in itertools.product(OKLOSS, ["okrst", "okfin", "ok", "badsig"], ["ok", "okrst", "refused"]):
+            for delta in (1, 700, 5000):
+                for vd in (0, 2000):
+                    for nh in (1, 2):
+                        dials, verifs = [], []
+                        for o in prefix + list(seq):
+                            if o == "refused":
+                                dials += [["refused"]] * nh
+                            else:
+                                dials.append(["connect", 0])
+                                verifs.append([o, delta if o != "badsig" else 0, 0, vd])
+                        out.append(dict(hosts=nh, subs=True, dials=dials + [["connect", 0]] * 3, verifies=verifs + [["ok", 300]],
+                                        controls=[[1, "ensure", 1]], end=400001, tag="scripted-loss"))
     return out
 
 
@@ -395,9 +422,9 @@ def _connected_unverified(sc, tr):
                 v = ver.get(c)
                 vd = _vdelay_of(sc, c)
                 # (an answer due exactly when the 30 s timeout fires may win or lose the race: not judged)
-                if v is None or v[3] != "ok" or vd > THIRTY_S or e[0] < v[0] + vd:
+                if v is None or v[3] not in OKLIKE or vd > THIRTY_S or e[0] < v[0] + vd:
                     bad.append(("connected-while-unverified", f"the pairing reports connected at tick {e[0]} on connection {c} "
-                                f"whose pair-verify {'was not answered with success' if v is None or v[3] != 'ok' or vd > THIRTY_S else 'answer is only due at tick ' + str(v[0] + vd)}"))
+                                f"whose pair-verify {'was not answered with success' if v is None or v[3] not in OKLIKE or vd > THIRTY_S else 'answer is only due at tick ' + str(v[0] + vd)}"))
                     return bad
     return bad
 
@@ -445,6 +472,10 @@ def oracle_c10(sc, tr):
     hangs = sorted(e[0] for e in tr if e[1] == "dial" and e[3] == "hang")
     verif_evs = [e for e in tr if e[1] == "verify"]
     opened_host = {e[2]: e[3] for e in tr if e[1] == "opened"}
+    closed_first = {}
+    for e in tr:
+        if e[1] == "closed":
+            closed_first.setdefault(e[2], e[0])
 
     def inflight(lo, hi):
         """longest time the pair-verify requests that arrived in [lo, hi) may stay in flight (30 s request timeout)"""
@@ -465,7 +496,10 @@ def oracle_c10(sc, tr):
             wrong = [opened_host.get(e[2]) for e in verif_evs if a <= e[0] < b and e[3] == "wrongid"]
             cands_b = [h for x in tr if x[1] == "dial" and x[0] == b for h in x[2]]
             relisted = any(c[1] == "zeroconf" and c[0] <= b for c in sc.get("controls", []))
-            if not wrong or (any(h in cands_b for h in wrong) and not relisted):
+            # ... or it is the first attempt of a fresh connector: the session on a connection opened since a had been
+            # established (pair-verify ok) when the accessory closed it in an orderly way (FIN) at tick b
+            fresh = any(e[3] == "okfin" and closed_first.get(e[2]) == b for e in verif_evs if a <= e[0] < b)
+            if not fresh and (not wrong or (any(h in cands_b for h in wrong) and not relisted)):
                 bad.append(("gap-too-short", f"attempts at {a} and {b} only {gap} ticks apart"))
     # ... and a chain of such immediate retries is as bounded as the dials inside one tick
     chain = 0
@@ -499,7 +533,7 @@ def oracle_c10(sc, tr):
             for c in opened_at.get(a, []):
                 vd = _vdelay_of(sc, c)
                 k = kind_of.get(c)
-                failing = k is not None and (vd > THIRTY_S or (vd < THIRTY_S and k not in ("ok", "auth")))
+                failing = k is not None and (vd > THIRTY_S or (vd < THIRTY_S and k not in ("ok", "auth", "okfin")))
                 if not failing or c not in first_closed:
                     over = None                       # session established / connector ended / race / still open
                     break
@@ -509,6 +543,14 @@ def oracle_c10(sc, tr):
                 continue
             sleep = b - over
             if sleep == 0:
+                # no sleep at all: the next happy-eyeballs round, or - after a connection was opened - the immediate
+                # retry that only a wrong pairing id justifies
+                cs = opened_at.get(a, [])
+                last = max(cs, key=lambda c: first_closed[c]) if cs else None
+                if last is not None and first_closed[last] == b and kind_of.get(last) != "wrongid":
+                    bad.append(("gap-too-short", f"the attempt begun at tick {a} failed at tick {b} (connection {last}, "
+                                f"'{kind_of.get(last)}') and the next attempt began in the same tick, without back-off"))
+                    break
                 continue
             if prev is not None and (sleep < prev or (prev < SIXTY_S and sleep == prev)):
                 bad.append(("backoff-not-growing", f"back-off sleeps of {prev} then {sleep} ticks ({prev / 4096:.2f} s, "
@@ -591,6 +633,27 @@ def oracle_c11(sc, tr):
         end = [e for e in tr if e[1] == "snap" and e[2] == "end"]
         if not reopen and end and end[-1][3]:
             bad.append(("open-after-close", f"connections {end[-1][3]} still open after close"))
+    # a healthy session is not torn down without cause: a connection whose pair-verify the accessory answered with plain
+    # success ("ok", in time) stays open and in use unless the accessory drops it (drop / dropreset of that connection)
+    # or the pairing is closed (close / shutdown) - events that can only come from the scenario's control list
+    endsnap = [e for e in tr if e[1] == "snap" and e[2] == "end"]
+    for e in tr:
+        if e[1] != "verify" or e[3] != "ok":
+            continue
+        c, vd = e[2], _vdelay_of(sc, e[2])
+        if vd >= THIRTY_S:
+            continue
+        tc = next((x[0] for x in tr if x[1] == "closed" and x[2] == c), None)
+        hi = tc if tc is not None else (endsnap[-1][0] if endsnap else e[0])
+        cause = any(e[0] <= k[0] <= hi and (k[1] in ("close", "shutdown") or (k[1] in ("drop", "dropreset") and k[2] == c))
+                    for k in ctr)
+        if tc is not None and not cause:
+            bad.append(("healthy-session-torn-down", f"connection {c}: pair-verify answered ok (request at tick {e[0]}), "
+                        f"closed at tick {tc} although the accessory did not drop it and nobody closed the pairing"))
+        elif tc is None and not cause and endsnap and endsnap[-1][0] > e[0] + vd and not (
+                endsnap[-1][4] and c in endsnap[-1][3]):
+            bad.append(("healthy-session-not-in-use", f"connection {c}: pair-verify answered ok (request at tick {e[0]}), never "
+                        f"closed, but at the end (tick {endsnap[-1][0]}) the pairing is not connected on it"))
     # a failed secure setup is closed: the pair-verify request of connection c (logged by the accessory as 'verify'
     # when it arrives) whose scripted outcome is a failure - or whose answer does not come within the 30 s request
     # timeout - must be followed by 'closed' of c no later than the accessory's reaction / the timeout
@@ -604,7 +667,7 @@ def oracle_c11(sc, tr):
         if e[1] != "verify":
             continue
         vd = _vdelay_of(sc, e[2])
-        if e[3] == "ok" and vd <= THIRTY_S:
+        if e[3] in OKLIKE and vd <= THIRTY_S:
             continue                        # (success due exactly at the timeout tick may win the race: not judged)
         deadline = e[0] + min(vd, THIRTY_S)
         if deadline > endt:
